@@ -97,6 +97,33 @@ Theorem C04_topk_group :
 Proof. exact topk_group_spec. Qed.
 Print Assumptions C04_topk_group.
 
+(* End to end for  topk/bottomk [by|without] (labels) (k, selector): at every
+   grid step the output is the concatenation, over the groups, of min(k, n) of
+   the group's n samples present at the step, none strictly worse than a dropped
+   one - for every shard count, batch size and window. *)
+Theorem C04_topk_over_selector :
+  forall (lt : Z -> Z -> bool) (isnan : Z -> bool),
+  (forall a b, isnan b = true -> lt a b = false) ->
+  (forall a, lt a a = false) ->
+  (forall a b c, lt a b = true -> lt b c = true -> lt a c = true) ->
+  (forall a b c, isnan c = false -> lt a b = true -> lt a c = true \/ lt c b = true) ->
+  forall (without : bool) (grouping : list N) (slabels : list labels) (sers : list (list sample)) (off : Z) (k : nat)
+         (cf : Compose.cfg) (w : window),
+  (0 < Compose.c_shards cf) -> (0 < Compose.c_batch cf) -> (0 <= Compose.c_lookback cf)%Z -> wf_window w ->
+  Forall sorted_ts sers -> 1 <= k ->
+  exists outs,
+    AggEnd.engine_topk lt isnan without grouping slabels sers off k cf w = outs /\ map fst outs = Grid.grid w /\
+    forall t out, In (t, out) outs ->
+      exists heaps, out = concat heaps /\ length heaps = length (AggEnd.groups without grouping slabels) /\
+        forall g, g < length (AggEnd.groups without grouping slabels) ->
+          let kept := nth g heaps [] in
+          let present := AggEnd.group_samples without grouping slabels sers off (Compose.c_lookback cf) t g in
+          incl kept present /\ NoDup (map fst kept) /\
+          length kept = Nat.min k (length present) /\
+          forall x y, In x kept -> In y present -> ~ In y kept -> worse Z lt isnan (snd x) (snd y) = false.
+Proof. exact AggEnd.topk_over_selector. Qed.
+Print Assumptions C04_topk_over_selector.
+
 (* the hypotheses are satisfiable: integers with no NaN, topk and bottomk *)
 Theorem C04_topk_group_Z : forall k samples, 1 <= k -> NoDup (map fst samples) ->
   length (topk_group Z Z.ltb (fun _ => false) k samples) = Nat.min k (length samples) /\
